@@ -60,3 +60,24 @@ Example T02_4_partial_nontrivial :
             SIf (Unknown 2 []) [SAssign 1 (RVal (VBool false))] [SAssign 1 (RVal (VBool true))]] in
   fia_safe (fuel_of p) p = true /\ fix_if_assign_model p <> p.
 Proof. exact fix_if_assign_partial_nontrivial. Qed.
+
+(* T02.5  fixes.swap_if_else (explicit and implicit forms, all heuristics, the 5-pass driver): sound for
+   every program; the negation it builds is the exact complement on truthiness and performs the same
+   oracle draws / events. *)
+Theorem T02_5_swap_if_else_preserves :
+  forall p, equiv p (swap_if_else_model p).
+Proof. exact swap_if_else_preserves. Qed.
+Print Assumptions T02_5_swap_if_else_preserves.
+
+Theorem T02_5_negate_complements :
+  forall t o st,
+    truthy (fst (eval_test o st (negate t))) = negb (truthy (fst (eval_test o st t)))
+    /\ snd (eval_test o st (negate t)) = snd (eval_test o st t).
+Proof. exact negate_complements. Qed.
+Print Assumptions T02_5_negate_complements.
+
+(* T02.6  fixes.delete_unreachable_code (after repairs d6620b5, c9f0b78), on top of T02.0 *)
+Theorem T02_6_delete_unreachable_code_preserves :
+  forall p, equiv p (delete_unreachable_code_model p).
+Proof. exact delete_unreachable_code_preserves. Qed.
+Print Assumptions T02_6_delete_unreachable_code_preserves.
